@@ -342,11 +342,11 @@ PROPS['C14'] = dict(
                 'repeat_pick(..) = held layers newest first, then the base layer, then the physical key itself, in each table the LAST-listed output that is '
                 'active - and that key is active (in the override-adjusted list of keys being held, or held through unshift / unmod); nothing in the hidden sequence modes. '
                 'Everything handle_repeat_actual calls is a stub with an assumed contract; the link between the two halves (the run-time table IS what the builder '
-                'produced, per layer) and the chords-v2 / override contributions to the table are not under contract.'),
+                'produced, per layer) is not under contract; the override contributions (add_kc_output) and the chords-v2 contributions (add_chordsv2_output_for_key_pos) are.'),
     level_note=('Trusted: rustc, Verus+Z3, extractor (R7/R7e slicing; opaque HoldTapConfig, UnmodMods, Overrides, HashMap; in unit repeat OsCode/KeyCode are opaque and the conversion is '
                 'a spec function - their identity is C11). Assumed: the hash-map entry idiom in add_kc_output (R37), Overrides::output_non_mods_for_input_non_mod returns a fixed list per key; Layout::keycodes / trans_resolution_layer_order, '
                 'Overrides::override_keys (any change of the held-key list), write_key (one log entry), FxHashMap::get, slice contains; every layer number the layout reports indexes key_outputs. '
-                'Not covered: add_chordsv2_output_for_key_pos, create_key_outputs, the hardware repeat gate.'),
+                'Not covered: create_key_outputs, the hardware repeat gate.'),
     technique='contract-based deductive verification (Verus): ensures over recursive spec functions (can_output; repeat_pick), decreases on the action tree, loop invariants over ghost iterators, ghost output log',
     design_ref='DESIGN.md section 4 C14 and section 9.1b',
     explanation=('Unit keyout - contract on parser/src/cfg/key_outputs.rs::add_key_output_from_action_to_key_pos: for all k, can_output(action, slot, k) ==> the table has (slot, k) AND (slot, o) for the output key o of every override whose input key is k '
@@ -362,7 +362,8 @@ PROPS['C14'] = dict(
         'unit repeat, PRECONDITION not established by a caller under contract: every layer number in the layout\'s resolution order, and default_layer, index key_outputs',
         'cur_keys is assumed empty on entry only implicitly: the contract speaks about cur_keys AFTER extend + override_keys, whatever it was before',
         'NOT decided: that key_outputs at run time is the table add_key_output_from_action_to_key_pos built (create_key_outputs, live reload); the hardware repeat gate in the Linux event loop',
-        'NOT covered: add_chordsv2_output_for_key_pos (reads an FxHashMap), create_key_outputs (the per-layer driver loop)',
+        'add_chordsv2_output_for_key_pos is UNDER CONTRACT (cut whole): every chords-v2 chord the key takes part in that is not disabled on the layer contributes what its action can put down (and the override outputs); ChordsV2 is opaque except for chords(); FxHashMap::get is an assumed stub; OsCode -> u16 uninterpreted; its `assert!(layer_idx <= u16::MAX)` is a precondition, not established by a caller under contract',
+        'NOT covered: create_key_outputs (the per-layer driver loop: nested enumerate() with a `continue` inside a match arm - this Verus has no continue in for loops)',
         'add_kc_output is UNDER CONTRACT (no longer assumed): the idiom `match outs.entry(k) { Occupied(o) => o.into_mut(), Vacant(v) => v.insert(vec![]) }` is rewritten (R37) to a helper returning a mutable borrow of the list stored for k (ASSUMED contract of the std hash-map entry API: empty list inserted if absent; what is done through the borrow is what the table holds for k afterwards; other keys untouched); `overrides.output_non_mods_for_input_non_mod(osc).iter().copied()` is iterated as the returned vector by value (R17); Overrides::output_non_mods_for_input_non_mod is an ASSUMED callee returning the uninterpreted list outs_for(osc); <[T]>::contains = membership (assumed std contract)',
         'KeyCode -> OsCode (a transmute) is assumed to preserve the number here; that is proved for every code by the Kani harnesses of C11',
         'CustomAction is represented by the two variants the function names (Unmodded, Unshifted) plus one catch-all variant (rewrite R7e); all other variants are treated uniformly by the function (`_ => {}`)',
